@@ -79,14 +79,18 @@ func (x *Exec) callCommon(fr *frame, st *State, cc *ssa.CallCommon, fnv Value, a
 		return r
 	}
 	if fr.top && x.fc != nil && x.fc.AtCall != nil {
-		nth := x.count(fr.name + "#atcallsite." + callee.Name())
-		conds := append([]Clause(nil), x.fc.AtCall[callee.Name()]...)
-		conds = append(conds, x.fc.AtCall[fmt.Sprintf("%s@%d", callee.Name(), nth)]...)
+		cname := callee.Name()
+		if i := strings.Index(cname, "["); i > 0 {
+			cname = cname[:i] // instance of a generic function: at-call conditions name the generic
+		}
+		nth := x.count(fr.name + "#atcallsite." + cname)
+		conds := append([]Clause(nil), x.fc.AtCall[cname]...)
+		conds = append(conds, x.fc.AtCall[fmt.Sprintf("%s@%d", cname, nth)]...)
 		for _, c := range conds {
 			g := x.evalGoalClause(fr, st, c, x.loopOpts(fr, nil))
 			n := nth
-			x.vc.oblige(&Obligation{Name: fmt.Sprintf("%s#atcall.%s@%d", fr.name, callee.Name(), n), Kind: "pre", Func: fr.name,
-				Guard: st.reach, Goal: g, Src: "before calling " + callee.Name() + ": " + c.Src, Pos: fmt.Sprintf("%s:%d", c.File, c.Line)})
+			x.vc.oblige(&Obligation{Name: fmt.Sprintf("%s#atcall.%s@%d", fr.name, cname, n), Kind: "pre", Func: fr.name,
+				Guard: st.reach, Goal: g, Src: "before calling " + cname + ": " + c.Src, Pos: fmt.Sprintf("%s:%d", c.File, c.Line)})
 		}
 	}
 	if x.fc != nil && !x.forceInline {
